@@ -733,18 +733,20 @@ def gen_body(r, ctx, inner, dec):
     # atomics
     a = r.random()
     if a < 0.2:
-        out.append(Stmt("acc[%d] += %s" % (r.randrange(4), val), atomic="a", basic=True))
+        # basic @atomic statements (-> `omp atomic`) use acc[0..1], general @atomic regions (-> `omp critical`)
+        # use acc[2..3]: `omp atomic` and `omp critical` do not exclude each other (finding F74)
+        out.append(Stmt("acc[%d] += %s" % (r.randrange(2), val), atomic="a", basic=True))
         feats.add("atomic-basic")
     elif a < 0.28:
-        out.append(Stmt("acc[%d]++" % r.randrange(4), atomic="a", basic=True))
+        out.append(Stmt("acc[%d]++" % r.randrange(2), atomic="a", basic=True))
         feats.add("atomic-basic")
     elif a < 0.34:
-        out.append(Seq("atomicblock", "@atomic {", [Stmt("acc[%d] += 2" % r.randrange(4), basic=True)]))
+        out.append(Seq("atomicblock", "@atomic {", [Stmt("acc[%d] += 2" % r.randrange(2), basic=True)]))
         feats.add("atomic-block-basic")
     elif a < 0.40 and ctx.get("allow_general_atomic"):
-        j = r.randrange(4)
+        j = 2
         out.append(Seq("atomicblock", "@atomic {", [Stmt("acc[%d] = acc[%d] + %s" % (j, j, val)),
-                                                   Stmt("acc[%d] += 1" % ((j + 1) % 4), basic=True)]))
+                                                   Stmt("acc[%d] += 1" % (j + 1), basic=True)]))
         feats.add("atomic-general")
     return out, uses_shared
 
